@@ -4,6 +4,7 @@
 import Driver.Proto
 import Driver.OpsH
 import NflVerif.Spec.Prng18Spec
+import NflVerif.Spec.Salsa20
 namespace Driver
 open Nfl
 
@@ -14,7 +15,70 @@ def triples : List Int → Option (List (Nat × Nat × Bool))
     if t < 0 || n < 0 then none else pure ((t.toNat, n.toNat, u != 0) :: rest)
   | _ => none
 
+def startMode (m : Int) : String :=
+  if m == 0 then "barrier" else if m == 1 then "linear-stagger" else if m == 2 then "leader+rest" else if m == 3 then "random-delays"
+  else "no-barrier"
+
+/-- class of the first-request configuration: how the threads start × how the 32 key bytes arrive -/
+def firstClass (mode stagger pre chunk gap : Int) : String :=
+  let slow := if pre == 0 && (gap == 0 || chunk == 0 || chunk ≥ 32) then "immediate"
+    else if chunk == 0 || chunk ≥ 32 then "late, in one piece" else if pre == 0 then s!"in pieces of {chunk}" else s!"late, in pieces of {chunk}"
+  s!"first-request start={startMode mode}{if mode == 0 || mode == 4 then "" else if stagger < 100 then " <100us" else if stagger < 1000 then " <1ms" else " >=1ms"} key-delivery={slow}"
+
+def lenClass18 (n : Int) : String :=
+  if n < 8 then "1..7" else if n < 64 then "8..63" else if n == 64 then "64" else if n ≤ 256 then "65..256" else ">256"
+
+/-- the key array when only its first `p` bytes have been written (static storage: the rest is zero) -/
+def partialKey (key : List Nat) (p : Nat) : List Nat := key.take p ++ List.replicate (32 - p) 0
+
+structure K18 where
+  nonce : Int
+  kclass : Int
+  len : Nat
+  key : List Nat
+
+def parseK18 : List Int → Option (K18 × String)
+  | _ :: mode :: stagger :: pre :: chunk :: gap :: _ :: _ :: nonce :: kclass :: len :: key =>
+    if key.length == 32 && key.all (fun v => 0 ≤ v && v < 256) && 0 ≤ len && len ≤ 4096 then
+      some ({ nonce := nonce, kclass := kclass, len := len.toNat, key := key.map Int.toNat },
+            firstClass mode stagger pre chunk gap ++ " len=" ++ lenClass18 len)
+    else none
+  | _ => none
+
 def concHandlersP : List (String × PHandler) := [
+  -- conc18k <T> <mode> <stagger> <pre> <chunk> <gap> <thread> <request> <nonce|-1> <keyclass> <len> <key[32]> => <bytes>
+  -- one request of a first-request run: the returned buffer must be the Salsa20/20 keystream (executable
+  -- specification Spec/Salsa20.lean) of the nonce the harness identified, under the key that randombytes delivered
+  ("conc18k", {
+    run := fun a => (parseK18 a).map fun (k, cls) =>
+      { model := if k.nonce < 0 then [] else (Salsa20.stream k.key (Salsa20.encodeLE 8 k.nonce.toNat) k.len).map Int.ofNat,
+        specOk := true, cls := cls, relational := true },
+    spec := fun a impl => (parseK18 a).map fun (k, _) =>
+      k.kclass == 0 && 0 ≤ k.nonce && impl == (Salsa20.stream k.key (Salsa20.encodeLE 8 k.nonce.toNat) k.len).map Int.ofNat,
+    why := fun a impl => match parseK18 a with
+      | some (k, _) =>
+        let who := s!"thread {a.getD 6 0} request {a.getD 7 0} ({k.len} bytes)"
+        if k.kclass == 0 then s!"{who}: the buffer is not the keystream of nonce {k.nonce} under the process key"
+        else if 1 ≤ k.kclass && k.kclass ≤ 32 && 0 ≤ k.nonce then
+          let p := (k.kclass - 1).toNat
+          let confirmed := impl == (Salsa20.stream (partialKey k.key p) (Salsa20.encodeLE 8 k.nonce.toNat) k.len).map Int.ofNat
+          let which := if p == 0 then "the ALL-ZERO key (the static key array before the seeding call has written it)"
+            else s!"a PARTIALLY WRITTEN key (first {p} bytes of the process key, the other {32 - p} still zero)"
+          s!"{who}: keystream of nonce {k.nonce} under {which}{if confirmed then ", confirmed by the executable Salsa20 specification" else " according to the harness (NOT confirmed by the specification)"}; every request must return keystream of the process key"
+        else s!"{who}: the buffer is the keystream of no nonce of this run under the process key, the all-zero key or a prefix of the process key"
+      | none => "" }),
+  -- conc18f <T> <mode> <stagger> <pre> <chunk> <gap> <N> => … (as conc18): history of a first-request run (fresh process)
+  ("conc18f", {
+    run := fun a => match a with
+      | [t, mode, stagger, pre, chunk, gap, _] =>
+        some { model := [1, 0], specOk := true, cls := s!"{firstClass mode stagger pre chunk gap} threads={t}", relational := true }
+      | _ => none,
+    spec := fun a impl => match a, impl with
+      | [_, _, _, _, _, _, n], seeds :: reports :: rest =>
+        match triples rest with
+        | some h => some (seeds == 1 && reports == 0 && h.length == n.toNat && Prng18.histOk 0 h)
+        | none => none
+      | _, _ => none }),
   -- conc17 <threads> <round-seed> <opcount> => <digests-equal> <tsan-reports>
   ("conc17", {
     run := fun a => match a with
